@@ -5,6 +5,7 @@ import (
 	"encoding/binary"
 	"fmt"
 	"math"
+	"math/rand"
 	"strings"
 	"sync"
 	"sync/atomic"
@@ -108,6 +109,10 @@ func queueModel() porcupine.Model {
 }
 
 func runC18(c *mon.Case) {
+	if c.Idx%12 == 3 {
+		runC18Queue(c)
+		return
+	}
 	switch c.Idx % 6 {
 	case 4:
 		runC18Ticker(c)
@@ -482,4 +487,93 @@ func runC18TimeoutMgr(c *mon.Case) {
 	}
 	c.Shard.Count("timeoutmgr_ops", progress.Load())
 	c.Shard.Eval(fmt.Sprintf("C|static=%v", static))
+}
+
+// runC18Queue stresses the real send queue (with its syncer and timeout
+// manager) in exactly the two roles the connection's loops play: the send loop
+// adds a packet while the window has room and resends the window (then waits
+// for the sync), the receive loop feeds ACKs and NACKs - mostly the ones a peer
+// would send, sometimes any value of the sequence space. Real time, tiny
+// timeouts; the race detector watches and the two-census rule decides about
+// deadlocks.
+func runC18Queue(c *mon.Case) {
+	rng := c.Rng
+	n := []uint8{1, 2, 3, 5, 20, 127, 254}[rng.Intn(7)]
+	s := n + 1
+	rt := time.Duration(200+rng.Intn(2000)) * time.Microsecond
+	q := gbn.VerifNewQueueWith(s, nil, gbn.WithStaticResendTimeout(rt), gbn.WithHandshakeTimeout(rt))
+	runFor := time.Duration(80+rng.Intn(80)) * time.Millisecond
+	seedS, seedR := rng.Int63(), rng.Int63()
+	var progress, adds, resends, acks atomic.Int64
+	stop := make(chan struct{})
+	var wg sync.WaitGroup
+	wg.Add(2)
+	go func() { // send-loop role
+		defer wg.Done()
+		r := rand.New(rand.NewSource(seedS))
+		for {
+			select {
+			case <-stop:
+				return
+			default:
+			}
+			_, _, size := q.State()
+			if size < n && r.Intn(4) != 0 {
+				q.Add()
+				adds.Add(1)
+			} else {
+				_ = q.Resend()
+				resends.Add(1)
+			}
+			progress.Add(1)
+		}
+	}()
+	go func() { // receive-loop role
+		defer wg.Done()
+		r := rand.New(rand.NewSource(seedR))
+		for {
+			select {
+			case <-stop:
+				return
+			default:
+			}
+			base, top, size := q.State()
+			var seq uint8
+			switch x := r.Intn(10); {
+			case x < 6: // the ACK a peer sends next
+				seq = base
+			case x < 8 && size > 0: // a later one (an earlier ACK was lost)
+				seq = uint8((int(base) + r.Intn(int(size))) % int(s))
+			case x < 9:
+				seq = top
+			default:
+				seq = uint8(r.Intn(int(s)))
+			}
+			if r.Intn(5) == 0 {
+				q.NACK(seq)
+			} else {
+				q.ACK(seq)
+			}
+			acks.Add(1)
+			progress.Add(1)
+			if r.Intn(8) == 0 {
+				time.Sleep(time.Duration(r.Intn(300)) * time.Microsecond)
+			}
+		}
+	}()
+	time.Sleep(runFor)
+	close(stop)
+	if !stuckCheck(c, "queue stress (send-loop role: addPacket/resend, receive-loop role: processACK/processNACK)", &wg, &progress) {
+		return
+	}
+	base, top, size := q.State()
+	if base >= s || top >= s || size > n {
+		c.Shard.Violate("queue-state", fmt.Sprintf("after the concurrent stress the queue is at base=%d top=%d size=%d with n=%d s=%d", base, top, size, n, s), nil)
+	}
+	q.Stop()
+	c.Shard.Count("queue_ops", progress.Load())
+	c.Shard.Count("queue_resend_calls", resends.Load())
+	c.Shard.Count("queue_adds", adds.Load())
+	c.Shard.Count("queue_acks_nacks", acks.Load())
+	c.Shard.Eval(fmt.Sprintf("Q|%d|%v", n, rt))
 }
